@@ -269,9 +269,8 @@ Section Inv.
     intros Hnr. unfold own_label. destruct (pc s i) as [| |k| |r|r] eqn:Hpc.
     - exists (LRegister i). split; [auto|]. unfold step. rewrite Hpc. discriminate.
     - exists (LPick i). split; [auto 6|]. unfold step. rewrite Hpc. discriminate.
-    - destruct (status s k) eqn:Hst; [destruct (broken s k) eqn:Hbr|].
-      + exists (LSendFail i). split; [auto 6|]. unfold step. rewrite Hpc, Hst, Hbr. discriminate.
-      + exists (LSendOk i). split; [auto 6|]. unfold step. rewrite Hpc, Hst, Hbr. discriminate.
+    - destruct (status s k) eqn:Hst.
+      + exists (LSendOk i). split; [auto 6|]. unfold step. rewrite Hpc, Hst. discriminate.
       + exists (LSendFail i). split; [auto 6|]. unfold step. rewrite Hpc, Hst. discriminate.
     - exists (LTimeout i). split; [auto 8|]. unfold step. rewrite Hpc. discriminate.
     - exists (LUnregister i). split; [auto 8|]. unfold step. rewrite Hpc. discriminate.
@@ -306,7 +305,7 @@ Section Inv.
       assumption, not a safety theorem) *)
   Theorem reconnect_path_partial s k :
     reachable init_state s -> status s k = true -> broken s k = false ->
-    exists s', run nconn ids s [LDrop k; LPingFail k; LReconnectEnter k; LReconnectDone k] = Some s' /\
+    exists s', exec nconn ids s [LDrop k; LPingFail k; LReconnectEnter k; LReconnectDone k] = Some s' /\
                status s' k = true /\ broken s' k = false /\ loops s' k = 0.
   Proof.
     intros Hr Hst Hbr. destruct (single_reconnect s k Hr) as [_ Hl].
@@ -314,7 +313,7 @@ Section Inv.
     { destruct (loops s k) as [|[|n]] eqn:E; [reflexivity| |].
       - destruct Hl as [Hl _]. specialize (Hl eq_refl). congruence.
       - destruct (single_reconnect s k Hr) as [Hle _]. lia. }
-    cbn [run]. unfold step at 1. rewrite Hst, Hbr. cbn [andb negb].
+    cbn [exec]. unfold step at 1. rewrite Hst, Hbr. cbn [andb negb].
     unfold step at 1. sred. rewrite !cupd_same, Hst. cbn [andb].
     unfold step at 1. sred. rewrite !cupd_same, Hst.
     unfold step at 1. sred. rewrite !cupd_same.
